@@ -258,7 +258,7 @@ def run_one(spec, in_process=False):
                                    resume=bool(spec["resume"]), inspect_callback=inspect, **kw)
         out = {"outcome": "ok", "final": canon(sl, mean)}
     except BaseException as e:                                    # noqa: resume impossible etc.
-        out = {"outcome": "raised", "error": type(e).__name__, "detail": str(e)[:200]}
+        out = {"outcome": "raised", "error": type(e).__name__, "detail": str(e).replace(os.path.realpath(odir), "<odir>").replace(odir, "<odir>")[:200]}
     for t in list(tr.open_files):                                 # files left open by an exception
         try:
             t.f.close()
